@@ -357,9 +357,9 @@ func genKmpDedup(repo string) (string, error) {
 	return g.out.String(), nil
 }
 
-// genCleanupRing: cleanupNewRing of snap.go -> gen/CleanupRingGen.v.  kmpDeduplicate and asPointOrLine are the
-// regenerated ones (KmpDedupGen.v, SnapSmallGen.v); splitRing is the MODEL's, its arguments (hitMultiple, ringIdx)
-// being the model's predicate isMulti.
+// genCleanupRing: cleanupNewRing of snap.go -> gen/CleanupRingGen.v.  kmpDeduplicate, asPointOrLine and splitRing are
+// the regenerated ones (KmpDedupGen.v, SnapSmallGen.v, SplitWalkGen.v); the arguments (hitMultiple, ringIdx) of
+// splitRing are the predicate isMulti.
 func genCleanupRing(repo string) (string, error) {
 	g, err := sgLoad(repo)
 	if err != nil {
@@ -398,7 +398,7 @@ func genCleanupRing(repo string) (string, error) {
 		g.sigs[name], g.emitted[name] = sig, true
 	}
 	g.out.WriteString("(* GENERATED by /verif/translator (G2, loops in the error monad) from snap/snap.go on every run -- do not edit. *)\n")
-	g.out.WriteString("From Coq Require Import ZArith List Bool.\nFrom Texel Require Import Prelude.Base Prelude.GoLoop Index.Model Snap.Model.\nFrom Texel.Gen Require Import KmpDedupGen SnapSmallGen.\nImport ListNotations.\nOpen Scope Z_scope.\n\n")
+	g.out.WriteString("From Coq Require Import ZArith List Bool.\nFrom Texel Require Import Prelude.Base Prelude.GoLoop Index.Model Snap.Model.\nFrom Texel.Gen Require Import KmpDedupGen SnapSmallGen SplitWalkGen.\nImport ListNotations.\nOpen Scope Z_scope.\n\n")
 	if err := g.function("cleanupNewRing"); err != nil {
 		return "", err
 	}
